@@ -93,6 +93,216 @@ def u5(run: Run, cy: CyProgram):
     run.floor("U5 kernels", n, 5)
 
 
+def _specialise(h, call, static_arg):
+    """Copy of helper definition `h` under the arguments of `call`: parameters
+    bound to static arguments (constants, defaults, references to library
+    callables) are replaced - by substitution when the helper never rebinds the
+    parameter, by a leading assignment otherwise - and tests that became
+    constant are folded.  -> (FunctionDef, {parameter: caller expression} for
+    the non-static arguments) or None when the binding is not static."""
+    import ast
+    import copy
+    from .idioms import bind_call_args, _subst_names, fold_constants, \
+        resolve_default_idiom
+    b = bind_call_args(h, call)
+    if b is None:
+        return None
+    stored = {n.id for n in ast.walk(h) if isinstance(n, ast.Name)
+              and isinstance(n.ctx, (ast.Store, ast.Del))}
+    subst, lead, dynamic = {}, [], {}
+    for p_, a_ in b.items():
+        if p_ in ("self", "cls"):
+            continue
+        if not static_arg(a_):
+            dynamic[p_] = a_
+        elif p_ in stored:
+            st = ast.Assign(targets=[ast.Name(id=p_, ctx=ast.Store())],
+                            value=copy.deepcopy(a_))
+            lead.append(ast.fix_missing_locations(ast.copy_location(st, h.body[0])))
+        else:
+            subst[p_] = a_
+    node = _subst_names(h, subst)
+    node.body = lead + node.body
+    node = resolve_default_idiom(node)
+    node = _fold_identity_tests(node)
+    node = fold_constants(node, {})
+    return ast.fix_missing_locations(node), dynamic
+
+
+def _fold_identity_tests(node):
+    """`<constant> is None` / `is not None` evaluated."""
+    import ast
+
+    class T(ast.NodeTransformer):
+        def visit_Compare(self, n):
+            self.generic_visit(n)
+            if len(n.ops) == 1 and isinstance(n.ops[0], (ast.Is, ast.IsNot)) and \
+                    isinstance(n.left, ast.Constant) and \
+                    isinstance(n.comparators[0], ast.Constant) and \
+                    n.comparators[0].value is None:
+                v = n.left.value is None
+                if isinstance(n.ops[0], ast.IsNot):
+                    v = not v
+                return ast.copy_location(ast.Constant(v), n)
+            return n
+    return T().visit(node)
+
+
+def u6(run: Run, prog: Program):
+    """The input data a Surrogates object holds is edited in place only by the
+    methods that declare the edit to the cache (they bump a counter listed in
+    some memoised method's `attrs`); every other method - the generators above
+    all - leaves it alone, also through helpers called with constant
+    arguments (specialised per call site) and library callables handed over
+    as arguments."""
+    import ast
+    import dataclasses
+    from .rules_c06 import purity, FuncAnalysis
+    run.rule("U6", "only methods that declare a data change to the cache edit the "
+             "held input series in place: generators leave `original_data` alone "
+             "(repeated generation does not degrade)")
+    C = next((c for c in prog.classes.values() if c.name == "Surrogates"), None)
+    if C is None:
+        raise AnalysisError("U6: class Surrogates not found")
+    an = purity(prog)
+    methods = prog.all_methods(C)
+    counters = set()
+    for f in methods.values():
+        if f.cached:
+            counters |= set(f.cache_attrs or ())
+    if not counters:
+        run.unknowns.append("U6: no memoised method of Surrogates declares "
+                            "dependency counters; writers cannot be told apart")
+        return
+    init = methods.get("__init__")
+    init_fa = an.analysis(init) if init else None
+    # cells holding the caller's series: stored from a constructor parameter
+    cells = set()
+    if init_fa is not None:
+        for cell, o in init_fa.stored.items():
+            if any(x.startswith("param:") for x in o):
+                cells.add(cell)
+    if not cells:
+        run.unknowns.append("U6: the constructor of Surrogates stores no series "
+                            "from its parameters in a public cell")
+        return
+    protected = {f"state:{c}" for c in cells}
+
+    def bumps(f, depth=3, seen=None):
+        seen = seen or set()
+        if f in seen:
+            return False
+        seen.add(f)
+        sn = f.params[0] if f.params else None
+        for n in ast.walk(f.node):
+            t = None
+            if isinstance(n, ast.AugAssign):
+                t = n.target
+            elif isinstance(n, ast.Assign):
+                t = n.targets[0]
+            if isinstance(t, ast.Attribute) and isinstance(t.value, ast.Name) and \
+                    t.value.id == sn and t.attr in counters:
+                return True
+            if depth and isinstance(n, ast.Call) and isinstance(n.func, ast.Attribute) \
+                    and isinstance(n.func.value, ast.Name) and n.func.value.id == sn:
+                g = prog.lookup(C, n.func.attr)
+                if g is not None and bumps(g, depth - 1, seen):
+                    return True
+            if depth and isinstance(n, ast.Assign) and isinstance(t, ast.Attribute) and \
+                    isinstance(t.value, ast.Name) and t.value.id == sn:
+                pr = prog.lookup_prop(C, t.attr)
+                if pr and "set" in pr and bumps(pr["set"], depth - 1, seen):
+                    return True
+        return False
+
+    def static_arg(a):
+        if isinstance(a, ast.Constant):
+            return True
+        if isinstance(a, ast.Attribute):
+            b = a
+            while isinstance(b, ast.Attribute):
+                b = b.value
+            return isinstance(b, ast.Name) and b.id not in ("self", "cls")
+        return False
+
+    n_methods = n_spec = 0
+    for name, f in sorted(methods.items()):
+        if f.kind != "method" or name == "__init__" or f.cls is None or \
+                not f.params:
+            continue
+        if bumps(f):
+            run.oblige("U6", f"writer:{f.qualname}", True, nontrivial=False,
+                       sample={"where": f.where, "declares": sorted(counters)})
+            continue
+        # private helpers are judged at their (specialised) call sites
+        n_methods += 1
+        fa = an.analysis(f)
+        bad = []
+        for m in fa.mutations:
+            if m.tentative or m.exempt:
+                continue
+            hit = sorted(o for o in m.origins if o in protected)
+            if hit:
+                bad.append((m.where, f"edits `{m.target_src}` in place ({m.how}), "
+                            f"which may be (a view of) {hit[0]}", m.how))
+        for (target, pn, o, node, pos, src) in fa.calls_passing:
+            hit = sorted(x for x in o if x in protected)
+            if hit and pn in an.mut_params.get(target, {}) and \
+                    an.real_mutation(fa, target, pn, node):
+                bad.append((f"{f.module.relpath}:{node.lineno}",
+                            f"passes `{src}` ({hit[0]}) to {target.qualname}, which "
+                            f"edits its parameter `{pn}` in place",
+                            f"via:{target.qualname}"))
+        # helpers of the class called with static arguments, analysed under them
+        sn = f.params[0]
+        for c in ast.walk(f.node):
+            if not (isinstance(c, ast.Call) and isinstance(c.func, ast.Attribute) and
+                    isinstance(c.func.value, ast.Name) and c.func.value.id == sn):
+                continue
+            h = prog.lookup(C, c.func.attr)
+            if h is None or h.kind != "method" or h.cached or h is f or bumps(h):
+                continue
+            if not any(static_arg(a) for a in list(c.args) +
+                       [k.value for k in c.keywords]) and not h.defaults():
+                continue
+            try:
+                sp = _specialise(h.node, c, static_arg)
+            except Exception:       # noqa: an unreadable helper is no verdict
+                sp = None
+            if sp is None:
+                continue
+            node, dynamic = sp
+            n_spec += 1
+            hfa = FuncAnalysis(an, dataclasses.replace(h, node=node))
+            hfa.run()
+            dyn_hit = {p_ for p_, a_ in dynamic.items()
+                       if any(o in protected for o in fa.origins(a_))}
+            for m in hfa.mutations:
+                if m.tentative or m.exempt:
+                    continue
+                hit = sorted(o for o in m.origins if o in protected) or \
+                    sorted(o for o in m.origins if o.startswith("param:") and
+                           o[6:] in dyn_hit)
+                if hit:
+                    bad.append((f"{f.module.relpath}:{c.lineno}",
+                                f"calls {h.qualname}({ast.unparse(c)[:70]}), which "
+                                f"under these arguments edits `{m.target_src}` in "
+                                f"place ({m.how}) at {h.module.relpath}:"
+                                f"{getattr(m.node, 'lineno', h.node.lineno)} - (a view "
+                                f"of) {hit[0]}", f"via:{h.qualname}"))
+        run.oblige("U6", f"{f.qualname}:leaves-input-alone", not bad,
+                   sample={"where": f.where, "protected": sorted(protected)})
+        for (where, msg, how) in bad:
+            run.add("U6", f"{f.qualname}/{sorted(protected)[0]}/{how}", where,
+                    f"{f.qualname} {msg}: the object's input series changes behind "
+                    f"the cache, and every later surrogate is drawn from the edited "
+                    f"data")
+    run.extra["U6"] = {"protected_cells": sorted(protected), "counters": sorted(counters),
+                       "non_writer_methods": n_methods,
+                       "specialised_helper_calls": n_spec}
+    run.floor("U6 methods of Surrogates analysed", n_methods, 8, hard=True)
+
+
 def check(run: Run, prog: Program, cy: CyProgram, sites):
     run.rule("U5", "the twin machinery compares distances with a threshold of at least "
              "the distances' precision")
@@ -128,3 +338,4 @@ def check(run: Run, prog: Program, cy: CyProgram, sites):
     _k4_cond_recompute(run, prog, CacheModel(prog), rule="U4",
                        class_pred=lambda C: C.name == "Surrogates")
     run.oblige("U4", "Surrogates:memo-scan", True, nontrivial=False)
+    u6(run, prog)
